@@ -254,6 +254,13 @@ def mon_hist(r, pid):
                     return "step %d: a replayed MsgRecvPacket reached OnRecvPacket for (%s,%s) sequence %s (receipt already stored; the message ended %s)" % (i, e[1], e[2], e[3], s["out"])
                 if e[0] == "recv2" and any((x[0], x[1]) == (e[1], e[2]) for x in prev_proj[ci]["r2"]):
                     return "step %d: a replayed v2 MsgRecvPacket reached OnRecvPacket for %s sequence %s (receipt already stored; the message ended %s)" % (i, e[1], e[2], s["out"])
+        # C01 / C02: on an ORDERED channel a packet that was already delivered must not reach the application again,
+        # even inside a message that ends up reverted
+        if pid in ("C01", "C02"):
+            for e in s.get("att", []):
+                if e[0] == "recv1" and ordered.get((ci, e[1], e[2])) and int(e[3]) in seqs_recv.get((ci, e[1], e[2]), []):
+                    return "step %d: sequence %s of ORDERED channel (%s,%s) was handed to the application again (already delivered: %s; the message ended %s)" % (
+                        i, e[3], e[1], e[2], seqs_recv[(ci, e[1], e[2])], s["out"])
         for e in s["evs"]:
             kind = e[0]
             if kind in ("recv1",):
